@@ -16,6 +16,7 @@ typedef struct Obj {
     int kind; void *addr;
     int owner;                 /* mutex: holder or -1; rwlock: writer or -1 */
     int readers; int rd_by[MAXT];
+    int mtype, depth;          /* mutex: 0 normal, 1 recursive (depth counts the extra locks of the owner), 2 error checking */
     int prefer_writer;         /* rwlock created with PTHREAD_RWLOCK_PREFER_WRITER_NONRECURSIVE_NP: new readers wait behind a waiting writer */
     int waiters[MAXT], nwait;  /* cond */
     int destroyed;
@@ -94,10 +95,11 @@ void pthread_model_describe_block(Thread *t, char *buf, size_t sz)
 /* ------------------------------------------------------------------ mutex */
 int __wrap_pthread_mutex_init(pthread_mutex_t *m, const pthread_mutexattr_t *a)
 {
-    (void)a;
+    Obj *o; int type = PTHREAD_MUTEX_DEFAULT;
     sched_point(OP_MUTEX_INIT, m, 0);
     if (obj_find(m, K_MUTEX)) mc_violation("POSIX", "posix/mutex-reinit", "pthread_mutex_init on an already initialised mutex %p", (void *)m);
-    obj_new(m, K_MUTEX);
+    o = obj_new(m, K_MUTEX);
+    if (a && pthread_mutexattr_gettype(a, &type) == 0) o->mtype = type == PTHREAD_MUTEX_RECURSIVE ? 1 : type == PTHREAD_MUTEX_ERRORCHECK ? 2 : 0;
     return 0;
 }
 int __wrap_pthread_mutex_destroy(pthread_mutex_t *m)
@@ -114,6 +116,7 @@ int __wrap_pthread_mutex_lock(pthread_mutex_t *m)
     Obj *o;
     if (!mc_active) { o = obj_find(m, K_MUTEX); if (o) o->owner = my_tid; return 0; }
     o = obj_need(m, K_MUTEX, "pthread_mutex_lock");
+    if (o->owner == my_tid && o->mtype) { sched_point(OP_STEP, NULL, 0); if (o->mtype == 2) return EDEADLK; o->depth++; return 0; }     /* a normal mutex locked again by its owner: never enabled -> reported as a deadlock */
     sched_point(OP_MUTEX_LOCK, m, 0);
     o = obj_need(m, K_MUTEX, "pthread_mutex_lock");
     if (o->owner != -1) mc_engine_error("mutex lock scheduled while held");
@@ -127,6 +130,7 @@ int __wrap_pthread_mutex_trylock(pthread_mutex_t *m)
     obj_need(m, K_MUTEX, "pthread_mutex_trylock");
     sched_point(OP_MUTEX_TRYLOCK, m, 0);
     o = obj_need(m, K_MUTEX, "pthread_mutex_trylock");
+    if (o->owner == my_tid && o->mtype == 1) { o->depth++; return 0; }
     if (o->owner != -1) { ch_note(0xEB); return EBUSY; }
     o->owner = my_tid; mon_acquire_obj(m); T[my_tid].barriers++;
     return 0;
@@ -139,6 +143,7 @@ int __wrap_pthread_mutex_unlock(pthread_mutex_t *m)
     sched_point(OP_MUTEX_UNLOCK, m, 0);
     o = obj_need(m, K_MUTEX, "pthread_mutex_unlock");
     if (o->owner != my_tid) mc_violation("POSIX", "posix/mutex-unlock-not-owner", "pthread_mutex_unlock by T%d of mutex %p %s", my_tid, (void *)m, o->owner == -1 ? "that is not locked" : "held by another thread");
+    if (o->depth > 0) { o->depth--; return 0; }
     mon_release_obj(m); T[my_tid].barriers++;
     o->owner = -1;
     return 0;
@@ -357,6 +362,19 @@ int __wrap_clock_nanosleep(clockid_t c, int flags, const struct timespec *req, s
     return 0;
 }
 int __wrap_usleep(unsigned us) { sched_point(OP_SLEEP, NULL, 2); vclock_ms += (us + 999) / 1000; return 0; }
+unsigned __wrap_sleep(unsigned sec) { sched_point(OP_SLEEP, NULL, 3); vclock_ms += 1000ul * sec; return 0; }
+int __wrap_pthread_yield(void) { sched_point(OP_YIELD, NULL, 0); return 0; }
+/* pthread_once: the first caller runs the routine, callers arriving meanwhile wait (fairly yielding) until it has returned */
+int __wrap_pthread_once(pthread_once_t *ctl_, void (*fn)(void))
+{
+    static struct { pthread_once_t *c; int state; } onces[32]; static int n; int i;
+    sched_point(OP_STEP, ctl_, 0);
+    for (i = 0; i < n; i++) if (onces[i].c == ctl_) break;
+    if (i == n) { if (n == 32) mc_engine_error("too many pthread_once controls"); onces[n].c = ctl_; onces[n].state = 1; n++; fn(); onces[i].state = 2; mon_release_obj(ctl_); return 0; }
+    while (onces[i].state == 1) sched_point(OP_YIELD, NULL, 0);
+    mon_acquire_obj(ctl_);
+    return 0;
+}
 
 /* ------------------------------------------------------------------ zygote */
 extern void p_libsys_init(void);
